@@ -97,6 +97,50 @@ INFO2 = {
  "C20-3": ("parseSingleKeyValuePair returns the earlier string error instead of the delimiter error: the half-read pair (complete key, nil value) is kept and MappingValues.Get slices pair[1][1:]", "RouterAddress / RouterInfo truncated immediately after the '=' of an option whose key an accessor looks up, then that accessor"),
  "C20-4": ("EncryptedLeaseSet.bytesWithoutSignature writes encryptedInnerData[:innerLength]; the parser stores innerLength before checking that the payload is there", "EncryptedLeaseSet truncated inside its encrypted payload (>= 109 bytes of input) then Bytes() or Verify() on the returned value"),
 }
+
+# round 3 (change 1: off the main parser path or needing a sequence of calls; change 2: narrow input); patch k kept as <ID>-<k+4>
+INFO3 = {
+ "C01-5": ("warnIfOptionsUnsorted compares against ValuesToMapping(mapping.Values()), which sorts the shared backing array in place: ReadLeaseSet2 silently reorders the parsed options", "accepted LeaseSet2 whose options have >= 2 pairs out of key order on the wire"),
+ "C01-6": ("parsePeerSizeFromBytes skips peer_size*32 bytes of peer hashes that are stored nowhere; the serialiser writes only the count byte", "RouterInfo with non-zero peer_size and the hashes present such that the rest still parses"),
+ "C02-5": ("KeyCertificateFromCertificate builds a detached certificate from the first 4 payload bytes only", "KEY certificate with extra payload built through NewCertificateWithType -> KeyCertificateFromCertificate -> NewKeysAndCert / NewRouterIdentity"),
+ "C02-6": ("legacy parseLeases: > 16 became >= LEASE_SET_MAX_LEASES", "legacy LeaseSet with exactly 16 leases"),
+ "C03-5": ("intFromBytes widens short integers into one package-level scratch array", ">= 2 goroutines parsing at the same time in one process (any inputs)"),
+ "C03-6": ("certificate 'payload too long' check applied to len(bytes)-3, the whole rest of the caller's buffer", "a certificate (or anything built on ReadKeysAndCert) followed by >= 65,536 bytes after its 3-byte header"),
+ "C04-5": ("verifyEd25519ph lost its len(pubKey) != 32 guard; ed25519.VerifyWithOptions panics on a bad key length", "OfflineSignature with destination signature type 8, VerifySignature(key) with a key that is not 32 bytes"),
+ "C04-6": ("parseSingleEncryptionKey checks TYPE_SIZE+LENGTH_SIZE+keyLen in uint16: wraps for keyLen >= 0xFFFC, then data[:keyLen] panics", "LeaseSet2 key length field of exactly 0xFFFC..0xFFFF with less data following"),
+ "C05-5": ("RouterInfo.VerifySignature memoises the signed bytes on first call and never invalidates them", "verify (true), change covered content through AddAddress or the RouterAddresses() pointers, verify again"),
+ "C05-6": ("serializeOnePair rejects an empty key; Data() skips the pair: a pair with an empty key inserted into signed options is not covered by any re-serialising verifier", "exactly one pair with an empty key inserted into the options of a signed LeaseSet2 / MetaLeaseSet / RouterInfo, size field adjusted"),
+ "C06-5": ("Newest/OldestExpiration sort the shared lease array in place: a signed LeaseSet no longer verifies after the accessor", ">= 2 leases not in ascending expiry order, accessor called before Verify()/Bytes()"),
+ "C06-6": ("LeaseSet2.verifyOfflineSignature reuses OfflineSignature.VerifySignature, which knows destination types 7, 8, 11 only", "LeaseSet2 with offline keys and a DSA_SHA1 destination (block built by NewOfflineSignature around a DSA signature)"),
+ "C07-5": ("RouterIdentity.AsDestination gives the copy a fresh certificate from NewKeyCertificateWithTypes: certificate type and extra payload lost", "NULL-certificate identity, or KEY certificate with more than 4 payload bytes, through AsDestination().Hash/Base32Address/Base64"),
+ "C07-6": ("constructECDSAP384Key copies data[:KEYCERT_SIGN_P256_SIZE] (64 of 96 bytes)", "parsed identity with signing type 2 and a non-zero byte among the last 32 key bytes"),
+ "C08-5": ("NewSignatureFromBytes lost its defensive copy in a helper refactor; only the legacy LeaseSet parser builds its signature that way", "ReadLeaseSet, overwrite the trailing signature bytes of the input, then Signature()/Bytes()/Verify()"),
+ "C08-6": ("RedDSA branch gets its own constructor passing data straight to ed25519.NewEd25519PublicKey (wraps the slice)", "KEY certificate with signing type 11, overwrite input offsets 352..383"),
+ "C09-5": ("NewRouterIdentityFromKeysAndCert caches its wrapper in a package-level sync.Map keyed by the *KeysAndCert pointer, looked up before the key-type check", "one KeysAndCert object wrapped while permitted, overwritten with a prohibited type of the same key sizes, wrapped again"),
+ "C09-6": ("validateDestinationKeyTypes reads the types through helpers that fail for non-KEY certificates and propagates the error", "the classic 387-byte NULL-certificate destination (DSA_SHA1 + ElGamal): over-rejection on every Destination path"),
+ "C10-5": ("KeyCertificate.CryptoPublicKeySize() indexes the crypto table with the signing type code", "signing code != crypto code with different sizes (Ed25519+ElGamal: 32 instead of 256); hidden when both codes are equal"),
+ "C10-6": ("same edit as C07-6 (P-384 key truncated)", "signing type 2 with non-zero last 32 key bytes"),
+ "C11-5": ("goPairToMappingPair assigns the key's error and then the value's error to the same variable: an over-long key is dropped silently", "map containing a key longer than 255 bytes whose value is within the limit"),
+ "C11-6": ("dropUnsetPairs tests len(pair[0]) <= 1 instead of == 0: the legitimately set empty key (single byte 0x00) is discarded", "map containing \"\" as a key"),
+ "C12-5": ("EncodeIntN returns a slice of a sync.Pool'd scratch array", ">= 2 EncodeIntN results held at once, the earlier one read after the later call"),
+ "C12-6": ("I2PString.Data() trims trailing NUL bytes", "string content ending in 0x00 read through Data()"),
+ "C13-5": ("base64 DecodeString / DecodeStringSafe return a slice of a pooled work buffer", "a decoded result held across a second decode (or written into)"),
+ "C13-6": ("empty-input guard moved from DecodeStringSafeNoPadding down into DecodeStringNoPadding", "exactly the empty string through DecodeStringNoPadding"),
+ "C14-5": ("validateEncryptionKeys passes keys[0] instead of keys[i] to the per-key consistency check", "LeaseSet2 with >= 2 keys where a key at index >= 1 has a known type and a self-consistent but wrong length"),
+ "C14-6": ("ValuesToMapping sums I2PString.Length() (content only): every pair under-counted by 2 bytes", "mapping payload between 65,536 and 65,535 + 2*pairs (>= 128 pairs)"),
+ "C15-5": ("Newest/OldestExpiration cache the running extreme's time before the loop and never refresh it", ">= 3 leases in non-monotone order"),
+ "C15-6": ("NewDateFromUnix / NewDateFromMillis share one bound MaxInt64/1000, correct for seconds only", "NewDateFromMillis with millis in (9223372036854775, MaxInt64]"),
+ "C16-5": ("DecryptInnerData zeroes the plaintext buffer after parsing; the parsed options mapping still points into it", "LeaseSet2 with a non-empty options mapping"),
+ "C16-6": ("VerifyBlindedSignature reduces the supplied factor modulo the group order L", "another factor = derived + k*L (k = 1..15)"),
+ "C17-5": ("MappingValues.Get compares only the span of the requested key (sameKey ignores the stored key's length byte)", "an extension key present (hostname for host, ih0 for i) with the exact key absent or stored later"),
+ "C17-6": ("HasValidHost returns false for unspecified addresses while Host() accepts them", "host exactly 0.0.0.0, ::, 0:0:0:0:0:0:0:0, ::ffff:0.0.0.0 or ::0.0.0.0"),
+ "C18-5": ("serializeMappingPairs takes its buffer from a package-level sync.Pool and returns buf.Bytes() before the copy", ">= 2 goroutines serialising values with non-empty mappings, under the race detector"),
+ "C18-6": ("RouterAddress.Bytes() (value receiver) zeroes a non-zero expiration through the shared *Date", "parsed RouterAddress with non-zero expiration; only the very first Bytes() call writes"),
+ "C19-5": ("NewDestination wraps first and calls (*Destination).Validate(), losing the key-type check", "NewDestination(ReadKeysAndCert(b)) with a Destination-prohibited type that ReadKeysAndCert can parse"),
+ "C19-6": ("buildKeyCertificatePayload writes byte(signingType >> 8) as the high byte of the crypto type", "NewKeyCertificateWithTypes with exactly one type in the experimental range 65280..65534"),
+ "C20-5": ("LeaseSet.Bytes() sizes its buffer from encryptionKey.Len() and signingKey.Len() before the nil checks", "zero value LeaseSet{} (also every failed ReadLeaseSet result) then Bytes() or Verify()"),
+ "C20-6": ("EncryptedLeaseSet.Verify() inspects the last signature byte for RedDSA signatures before verifying", "failed-parse EncryptedLeaseSet with signature type 11 (>= 109 bytes of input) then Verify()"),
+}
 MISSED_FIRST_2 = ["C05-4", "C06-3", "C07-4", "C09-3", "C10-4", "C15-3", "C17-3", "C18-4", "C19-3", "C19-4"]
 
 
@@ -104,14 +148,27 @@ def main():
     out_root = os.path.join(V, "seeded")
     os.makedirs(out_root, exist_ok=True)
     n = 0
+    missed3 = set()
+    for key in INFO3:
+        pid, k = key.split("-")
+        f = os.path.join(SRC, "results3-old", "%s-%d.json" % (pid, int(k) - 4))
+        try:
+            if json.load(open(f))[pid]["rc"] != 1:
+                missed3.add(key)
+        except Exception:
+            pass
     allinfo = dict(INFO)
     allinfo.update(INFO2)
+    allinfo.update(INFO3)
     for key in sorted(allinfo):
         pid, k = key.split("-")
         round2 = key in INFO2
+        round3 = key in INFO3
         if round2:
             k = str(int(k) - 2)
-        src = os.path.join(SRC, ("R2" if round2 else "") + pid + "-out")
+        if round3:
+            k = str(int(k) - 4)
+        src = os.path.join(SRC, ("R3" if round3 else "R2" if round2 else "") + pid + "-out")
         conf = os.path.join(src, "confirm%s.json" % k)
         if not os.path.exists(conf):
             continue
@@ -128,7 +185,7 @@ def main():
         if os.path.exists(os.path.join(src, "notes.md")):
             shutil.copy(os.path.join(src, "notes.md"), os.path.join(dst, "notes.md"))
         caught, missed, detail = [], [], {}
-        rp = os.path.join(SRC, "results2" if round2 else "results", "%s-%s.json" % (pid, k))
+        rp = os.path.join(SRC, "results3" if round3 else "results2" if round2 else "results", "%s-%s.json" % (pid, k))
         if os.path.exists(rp):
             try:
                 r = json.load(open(rp))
@@ -155,8 +212,9 @@ def main():
                 how="seedtool.py confirm: patch applied in a scratch worktree of /repo, `go build ./...`, full existing suite (`go test -vet=off -count=1 ./...`), demo with the patch, patch reverted, demo again" + (" (demo under -race)" if pid == "C18" else ""),
                 suite_passes_with_patch=c.get("suite_rc") == 0, demo_fails_with_patch=c.get("demo_rc_with") != 0, demo_passes_without_patch=c.get("demo_rc_without") == 0,
                 demo_dir=c.get("demo_dir")),
-            checks_run=("quick tier of the target check (and of the neighbouring checks listed) against a scratch worktree with the patch applied (seedtool.py run, VERIF_REPO)" if round2 else "quick tier of every check against a scratch worktree with the patch applied (seedtool.py run, VERIF_REPO)"),
-            missed_at_first=(key in MISSED_FIRST_2) if round2 else None,
+            checks_run=("quick tier of the target check (and of the neighbouring checks listed) against a scratch worktree with the patch applied (seedtool.py run, VERIF_REPO)" if (round2 or round3) else "quick tier of every check against a scratch worktree with the patch applied (seedtool.py run, VERIF_REPO)"),
+            missed_at_first=(key in MISSED_FIRST_2) if round2 else (key in missed3) if round3 else None,
+            round=3 if round3 else 2 if round2 else 1,
             caught_by=sorted(caught), first_report=detail.get(pid) or (detail[sorted(detail)[0]] if detail else ""),
             not_reporting=sorted(missed))
         json.dump(meta, open(os.path.join(dst, "meta.json"), "w"), indent=1)
